@@ -1,6 +1,7 @@
 import Drivers.Proto
 import St4sd.Model.Ctrl
 import St4sd.Model.CtrlSplit
+import St4sd.Model.CtrlLoop
 /-! Model driver for properties C01 and C02 (shared model `St4sd.Ctrl`; C01 entry point: the operations may also be
 the three parts ["finA",c] | ["finB",c] | ["finC",c] of a finished-notification handler, `St4sd.Ctrl.sstep`; the
 snapshots then carry "inflight": [[c, 1 = waits for the lock | 2 = waits for comp_done.add]] when not empty) or
@@ -92,7 +93,36 @@ def snap (wf : Wf) (ss : SSt) : Json :=
          [("inflight", jarr ((sortFlights (ss.inflight.map fun e => (e.1, phaseNo e.2))).map
             fun e => jarr [jnat e.1, jnat e.2]))]))
 
-def handle (j : Json) : Except String Json := do
+/-! Second entry point (request with a key "loop"): the consumer of a DoWhile loop, `St4sd.CtrlLoop`.
+request : {"loop":{"n":N,"cond":c,"refs":[..]}, "script":[bool], "ops":[[op, ...] per step of the real run]},
+          op = ["exit",k,n] | ["crit",k,n,ok(0|1)] | ["post",k,n] | ["sched"]
+answer  : {"snaps":[{"cur","launched","ph":[[phase of (k,n) for n < N] for k ≤ cur]} after every group]} -/
+def parseLoopOp (j : Json) : Except String St4sd.CtrlLoop.Op := do
+  let a ← j.getArr?
+  let k ← (a[0]!).getStr?
+  let nat (i : Nat) : Except String Nat := do (← (a[i]? |>.elim (throw "missing operand") pure)).getNat?
+  match k with
+  | "sched" => pure .sched
+  | "exit" => return .exit (← nat 1) (← nat 2)
+  | "crit" => return .crit (← nat 1) (← nat 2) ((← nat 3) != 0)
+  | "post" => return .post (← nat 1) (← nat 2)
+  | _ => throw s!"unknown loop op {k}"
+
+def loopSnap (L : St4sd.CtrlLoop.Loop) (s : St4sd.CtrlLoop.LS) : Json :=
+  jobj [("cur", jnat s.cur), ("launched", jbool s.launched.isSome),
+        ("ph", jarr ((List.range (s.cur + 1)).map fun k => jarr ((List.range L.n).map fun n => jnat (s.ph k n))))]
+
+def handleLoop (j : Json) : Except String Json := do
+  let lj ← j.getObjVal? "loop"
+  let L : St4sd.CtrlLoop.Loop := { n := ← getNat lj "n", cond := ← getNat lj "cond", refs := ← getNatList lj "refs" }
+  let script ← (← getArr j "script").mapM (fun b => b.getBool?)
+  let groups ← (← getArr j "ops").mapM (fun g => do (← g.getArr?).toList.mapM parseLoopOp)
+  let (_, snapsRev) := groups.foldl (fun (acc : St4sd.CtrlLoop.LS × List Json) g =>
+      let s' := g.foldl (St4sd.CtrlLoop.step L) acc.1
+      (s', loopSnap L s' :: acc.2)) (St4sd.CtrlLoop.init script, [])
+  return jobj [("snaps", jarr snapsRev.reverse)]
+
+def handleStatic (j : Json) : Except String Json := do
   let cds ← (← getArr j "comps").mapM parseComp
   let order ← getNatList j "order"
   let lastStage ← getNat j "lastStage"
@@ -120,5 +150,10 @@ def handle (j : Json) : Except String Json := do
                ("log", jarr (sfin.log.map fun e => jarr [jnat e.1, jarr (e.2.map viewJson)])),
                ("spec", jarr ((comps wf).map fun c => jstr (fin3Name (spec wf c)))),
                ("own", jarr ((comps wf).map fun c => jstr (fin3Name (own wf c))))]
+
+def handle (j : Json) : Except String Json :=
+  match j.getObjVal? "loop" with
+  | .ok _ => handleLoop j
+  | .error _ => handleStatic j
 
 def main : IO Unit := serve handle
